@@ -234,7 +234,8 @@ def LC4_worker_keeps_followup(ctx):
     f = sched(ctx, 'run_worker')
     bad = []
     n_some = n_none = 0
-    for p in [q for q in f.paths() if q.end in ('return', 'cut')]:
+    # (a worker written as an explicit state machine needs one loop visit per state: Fetch -> Run -> Fetch -> ...)
+    for p in [q for q in f.paths(max_visits=5) if q.end in ('return', 'cut')]:
         ev = p.events
         for i, e in enumerate(ev):
             if not (e.kind == 'call' and (is_call(e, 'Scheduler::execute_task') or is_call(e, 'Scheduler::validate'))):
@@ -258,7 +259,8 @@ def LC4_worker_keeps_followup(ctx):
             else:
                 n_none += 1
                 ab_true = _aborted_true_after(p, j)
-                if not nx and not ab_true:
+                if not nx and not ab_true and p.end == 'return':
+                    # (a path cut at the loop bound before the next state is reached proves nothing either way)
                     bad.append((p, e, 'no follow-up, not aborted, and next() is not consulted'))
     ctx.ob('LC4', f, 'follow-up-task-is-run-not-replaced', n_some >= 2 and n_none >= 2 and not bad,
            f'some={n_some} none={n_none}; ' + '; '.join(sorted({w for _, _, w in bad})[:3]), site=f.loc(f.b['lo']),
